@@ -39,18 +39,18 @@ type Oracle struct {
 	World    bool // liveness, component sets, values, relation targets of every entity
 	Typed    bool // additionally through Map[T] (pointer identity with Unsafe.Get, Has)
 	Family   []model.FilterSpec
-	Filters  bool // evaluate all created scenario filters (cached or not) against the model
-	Twins    bool // registered filters vs. fresh unregistered twins
-	Stats    bool // World.Stats() consistency (calls Stats, which updates the stats cache)
-	Lock     bool // IsLocked agrees with the model
-	Events   bool // observer callbacks multiset per operation
-	InCb     bool // C09: inspect the world from inside observer callbacks
-	InCbPtr  bool // C14: with InCb, only check the pointers handed to typed observers
-	Res      bool // resources agree with the model
+	Filters  bool      // evaluate all created scenario filters (cached or not) against the model
+	Twins    bool      // registered filters vs. fresh unregistered twins
+	Stats    bool      // World.Stats() consistency (calls Stats, which updates the stats cache)
+	Lock     bool      // IsLocked agrees with the model
+	Events   bool      // observer callbacks multiset per operation
+	InCb     bool      // C09: inspect the world from inside observer callbacks
+	InCbPtr  bool      // C14: with InCb, only check the pointers handed to typed observers
+	Res      bool      // resources agree with the model
 	Tuple    []ct.Comp // C14: MapN for this ordered tuple returns pointers in parameter order, equal to ID-based access
-	ProbeCb  bool // C07: attempt structural operations from inside removal and batch callbacks
-	Pool     bool // C02: handle uniqueness, Alive of every handle ever issued, counts
-	ZeroInit bool // C11: uninitialised components read as zero (part of World compare anyway)
+	ProbeCb  bool      // C07: attempt structural operations from inside removal and batch callbacks
+	Pool     bool      // C02: handle uniqueness, Alive of every handle ever issued, counts
+	ZeroInit bool      // C11: uninitialised components read as zero (part of World compare anyway)
 }
 
 // Violation describes a failed oracle.
@@ -97,14 +97,14 @@ type World struct {
 	exch    map[string]api.Exchanger
 	single  [ct.NumComps]api.Mapper
 
-	cbs     []CbRec
-	cbViol  *Violation
-	inOp    bool
-	preM    *model.Model // model before the current op (for in-callback checks)
-	curRes  *model.Result
-	curOp   *model.Op
-	Step    int
-	resKeys [4]ecs.ResID
+	cbs      []CbRec
+	cbViol   *Violation
+	inOp     bool
+	preM     *model.Model // model before the current op (for in-callback checks)
+	curRes   *model.Result
+	curOp    *model.Op
+	Step     int
+	resKeys  [4]ecs.ResID
 	slotOpen []bool // query slots open before the current op
 
 	// OnStep, if set, is called at the start of every Exec with the step number.
